@@ -338,6 +338,7 @@ func newEnvPickler() pickle.PicklerFunc {
 // - Builtins are pickled as (NEWOBJ "dawn" "Builtin" ())
 // - Function code is pickled as (NEWOBJ "dawn" "FunctionCode" (module, globals, bytecode))
 // - Functions are pickled as (NEWOBJ "dawn" "Function" (defaults, freevars, code)).
+// - The placeholder default of a required keyword-only parameter is pickled as (NEWOBJ "dawn" "Mandatory" ()).
 func envPickler(x starlark.Value) (module, name string, args starlark.Tuple, err error) {
 	switch x := x.(type) {
 	case *function:
@@ -351,6 +352,11 @@ func envPickler(x starlark.Value) (module, name string, args starlark.Tuple, err
 		defaults, freevars := x.Env()
 		return "dawn", "Function", starlark.Tuple{defaults, freevars, x.Code()}, nil
 	default:
+		// The default parameter values of a function hold a placeholder for each keyword-only
+		// parameter that has no default.
+		if x.Type() == "mandatory" {
+			return "dawn", "Mandatory", starlark.Tuple{}, nil
+		}
 		return "", "", nil, pickle.ErrCannotPickle
 	}
 }
@@ -364,6 +370,8 @@ func envPickler(x starlark.Value) (module, name string, args starlark.Tuple, err
 //     into a dictionary.
 //   - References from a function or function code to itself are unpickled from
 //     (NEWOBJ "dawn" "Recursive" (name, index)) into (name, index).
+//   - The placeholder default of a required keyword-only parameter is unpickled from
+//     (NEWOBJ "dawn" "Mandatory" ()) into the string "mandatory parameter".
 func envUnpickler(module, name string, args starlark.Tuple) (starlark.Value, error) {
 	if module != "dawn" {
 		return nil, fmt.Errorf("cannot unpickle value of type %s.%s", module, name)
@@ -385,6 +393,11 @@ func envUnpickler(module, name string, args starlark.Tuple) (starlark.Value, err
 			return nil, fmt.Errorf("expected 2 args, got %v", len(args))
 		}
 		return args, nil
+	case "Mandatory":
+		if len(args) != 0 {
+			return nil, fmt.Errorf("expected 0 args, got %v", len(args))
+		}
+		return starlark.String("mandatory parameter"), nil
 	case "FunctionCode":
 		if len(args) != 3 {
 			return nil, fmt.Errorf("expcted 3 args, got %v", len(args))
